@@ -151,7 +151,7 @@ def run(ctx, only=None):
         for f in obs['failures']:
             ctx.violation(f'{c["id"]}|{f["path"]}|{f["kind"]}', f'{c["id"]} {f["method"]} via {f["path"]} field={f["field"]} state={f["state"]}: '
                           f'{f["kind"]}: {f["detail"]}', st)
-    if not only and driven < 100:
+    if not only and driven < 100 and not ctx.violations:
         raise HarnessError(f'C18 exploration collapsed: {driven} driven calls')
     ctx.extra['bound'] = 'complete product of single-field declarations; 3 calls per (field state, path)'
 
